@@ -128,3 +128,8 @@ func ghost_holdsCopy(dst, src reflect.Value) bool {
 }
 
 func ghost_hasInit(t reflect.Type) bool { return hasInitDefaults(t) }
+
+func ghost_selfValid(v reflect.Value) bool                { return tryValidate(v) == nil }
+func ghost_isUnp(v reflect.Value) bool                    { _, ok := valueIsUnpacker(v); return ok }
+func ghost_chasedI(v reflect.Value) reflect.Value         { return chaseValueInterfaces(v) }
+func ghost_accepts(vs []validatorTag, v interface{}) bool { return runValidators(v, vs) == nil }
